@@ -138,13 +138,31 @@ def check_environment_file(case):
     prog = runcheck.resolve_faults(case["program"])
     normalize(prog)
     prog["hook_style"] = case["hook_style"]
+    if case.get("omit"):
+        prog["omit_hooks"] = list(case["omit"])
     ref = refmodel.simulate(prog)
+    if case.get("earlier_project"):
+        # history within one process (behave driven as a library): ANOTHER project with a complete environment file ran
+        # before; its hooks are none of this run's business
+        other = {"features": [{"tags": ["a"], "items": [{"k": "s", "tags": ["b"], "steps": [{"kw": "Given", "o": "pass"}]}]}],
+                 "cfg": {}}
+        normalize(other)
+        proj0 = disk.Project(other)
+        try:
+            disk.run_inproc(proj0, ["-f", "null", "--no-summary", "features"], other)
+        finally:
+            proj0.close()
+        res.label("environment-file:another-project-ran-before")
     proj = disk.Project(prog)
     try:
         argv = disk.cli_args(prog.get("cfg") or {}) + ["-f", "null", "--no-summary", "features"]
         run = disk.run_inproc(proj, argv, prog)
     finally:
         proj.close()
+    stale = [n["hook"] for n in (getattr(run, "notes", None) or []) if n.get("kind") == "stale-hook"]
+    if stale:
+        res.fail("C12.environment-file.foreign-hook-called", "hook functions of an earlier run's environment file were "
+                 "called in this run: %s (this environment defines no %s)" % (sorted(set(stale)), case.get("omit")))
     res.nontrivial = len(ref.hooks) > 6
     res.label("environment-file", "environment-file:hooks-are-" + (case["hook_style"] or "functions"))
     if run.escaped is not None:
@@ -424,7 +442,9 @@ def explore(rec):
     rec.hyp("programs", program_for_hooks(), 260 if quick else 6000, fn=family)
     rec.hyp("environment-file", st.builds(
         lambda p, style, k: {"kind": "environment-file", "program": dict(p, hook_faults=[[k, "Exception"]]) if k % 3 == 0 else p,
-                             "hook_style": style},
+                             "hook_style": style, "earlier_project": k % 2 == 0,
+                             "omit": [["before_tag", "after_tag"], ["before_step", "after_step"], ["after_scenario"],
+                                      ["before_all", "after_all"], []][k % 5]},
         gen.program_st(faults=False, max_features=2, outcomes=["pass", "pass", "fail", "undefined"],
                        cfg=gen.cfg_st(flags=("stop",), p_tags=0.3)),
         st.sampled_from([None, "partial", "method", "callable"]), st.integers(0, 10000)), 240 if quick else 5000)
@@ -441,7 +461,8 @@ def required_labels(tier):
                                                                      "fault-in-@capture-decorated-hook", "exception-without-message", "raise-then-skip", "skip-via-mark_skipped",
                                                                      "partial-environment:after_tag-without-before_tag", "continue-after-failed-step",
                                                                      "environment-file:hooks-are-partial", "environment-file:hooks-are-method",
-                                                                     "environment-file:hooks-are-callable", "environment-file:hooks-are-functions"]
+                                                                     "environment-file:hooks-are-callable", "environment-file:hooks-are-functions",
+                                                                     "environment-file:another-project-ran-before"]
 
 
 KNOWN_PREDICATES = {}
